@@ -33,6 +33,8 @@ var c13Times = func() []time.Time {
 		time.Date(1, 1, 1, 0, 0, 0, 0, time.UTC), time.Date(9999, 12, 31, 23, 59, 59, 999999999, time.UTC),
 		time.Date(2024, 2, 29, 12, 0, 0, 1, z1), time.Date(1969, 12, 31, 23, 59, 59, 999999999, z2), time.Date(1970, 1, 1, 0, 0, 0, 0, time.UTC),
 		time.Date(2038, 1, 19, 3, 14, 8, 0, z1), time.Unix(0, 1).In(z2), time.Date(2020, 6, 15, 10, 30, 0, 123456789, time.Local),
+		// zones whose offset is no whole number of minutes, or minus one minute (the value time's binary form reserves)
+		time.Date(2021, 3, 4, 5, 6, 7, 8, time.FixedZone("m1", -60)), time.Date(2021, 3, 4, 5, 6, 7, 0, time.FixedZone("s90", -90)), time.Date(1900, 1, 1, 0, 0, 0, 0, time.FixedZone("lmt", 53*60+28)),
 	}
 }()
 
@@ -667,7 +669,14 @@ func c13NestedCase(c *core.Ctx) {
 			c.Violationf("C13 round trip: nested map", map[string]any{"written": short(top)}, "wrote %s read %s", short(top), short(gm))
 		}
 		gl := b.GetList("l")
-		if !nestedEq(expectNested(list), normAnyList(gl)) {
+		var glAny any = gl // an empty list that was written is an empty list, not "no list"
+		if list == nil {
+			glAny = normAnyList(gl)
+		}
+		if list != nil && gl == nil {
+			c.Violationf("C13 round trip: a list that was written (with no elements) reads back as no list", map[string]any{"written": short(list)}, "wrote %s read nil", short(list))
+		}
+		if !nestedEq(expectNested(list), glAny) {
 			c.Violationf("C13 round trip: nested list", map[string]any{"written": short(list)}, "wrote %s read %s", short(list), short(gl))
 		}
 	})
